@@ -75,7 +75,7 @@ func checkInterface(ifi *net.Interface, addrFunc func() ([]net.Addr, error)) err
 		}
 
 		ip, ok := netip.AddrFromSlice(a.IP)
-		if ok && ip.Is6() && ip.IsLinkLocalUnicast() {
+		if ok && ip.Is6() && !ip.Is4In6() && ip.IsLinkLocalUnicast() {
 			foundLL = true
 			break
 		}
